@@ -366,6 +366,10 @@ fn compile_case(rt: &mut Runtime, tape: &[u8]) -> Outcome {
     if m.variant == "base" {
         classes.push("compile:base-module");
     }
+    if m.source.contains("by_key") && m.source.contains("keys") {
+        // the generator's fragment: newtype over an imported chain of key newtypes, used as a key
+        classes.push("compile:cross-schema-key-newtype-chain");
+    }
     Outcome::Pass(PassInfo { nontrivial: !m.types.is_empty(), fp, classes })
 }
 
